@@ -2,6 +2,19 @@
 From Pyro Require Export Model.Base Model.Varint Model.Tree Model.Cappedarr Model.Dict Model.TreeCodec Corr.Verdict.
 Open Scope string_scope.
 
+(* run-length form used by the harness to print big trees: k nested frames with the same name, self and total,
+   each the only child of the one above, around [c] (a lossless abbreviation of the dump, expanded here) *)
+Fixpoint t_rep (k : nat) (n : bytes) (s tot : N) (c : tnode) : tnode :=
+  match k with
+  | O => c
+  | S k' => TNode n s tot [t_rep k' n s tot c]
+  end.
+
+(* one step of a sequence of encodings performed on ONE tree object (no Insert/Merge in between):
+   kind 0 = Bytes/FromBytes with a fresh dictionary, 1 = SerializeNoDict/DeserializeNoDict,
+   2 = FlamebearerStruct (result not used here), 3 = minValue; each with its own cap *)
+Record seqobs := { q_kind : nat; q_cap : nat; q_dec : option tnode; q_minval : N }.
+
 Record case := {
   c_orig : tnode;                 (* VerifDump of the tree before encoding (VerifBuild or Insert) *)
   c_cap : nat;                    (* maxNodes, >= 1 *)
@@ -11,6 +24,10 @@ Record case := {
   c_dec_pre : option tnode;       (* Go: the same with the pre-populated dictionary *)
   c_dec_nodict : option tnode;    (* Go: DeserializeNoDict(SerializeNoDict(cap)) *)
   c_src_untouched : bool;         (* Go: the source tree dumps identically after the three encodings *)
+  c_seq : list seqobs;            (* Go: further encodings on a second, single tree object, in this order *)
+  c_big : bool;                   (* a tree of tens of thousands of nodes under a cap above its size: only the
+                                     below-the-cap clause of the property is evaluated (linear comparisons); the
+                                     model's threshold walk is quadratic in the cap and is not run *)
   c_bad : option (bytes * option tnode)
                                   (* malformed stream (a corrupted SerializeNoDict output) and what DeserializeNoDict
                                      answered for it (None = error); exercises the decoder's error cases *)
@@ -49,7 +66,41 @@ Definition opt_eqb (a b : option tnode) : bool :=
   | _, _ => false
   end.
 
-Definition check_case (c : case) : verdict :=
+(* every step of a sequence is judged for ITS cap: the property's statement on what was decoded, and the model *)
+Definition check_seq (t : tnode) (good exact : bool) (q : seqobs) : list verdict :=
+  let cap := q_cap q in
+  match q_kind q with
+  | 0%nat =>
+      (if good then spec_one "sequence on one tree object, dictionary encoding" t cap exact (q_dec q) else []) ++
+      [corr (opt_eqb (let '(bs, d) := tc_serialize cap t d_new in tc_deserialize d bs) (q_dec q))
+            "sequence on one tree object: model of Serialize/Deserialize differs"]
+  | 1%nat =>
+      (if good then spec_one "sequence on one tree object, self-contained encoding" t cap exact (q_dec q) else []) ++
+      [corr (opt_eqb (tc_deserialize_nodict (tc_serialize_nodict cap t)) (q_dec q))
+            "sequence on one tree object: model of SerializeNoDict/DeserializeNoDict differs"]
+  | 3%nat => [corr (N.eqb (t_minval cap t) (q_minval q)) "sequence on one tree object: t_minval differs from Tree.minValue"]
+  | _ => []
+  end%list.
+
+(* the big-tree case: below the cap every decoding must be the original up to zero-total frames *)
+Definition check_big (c : case) : verdict :=
+  let t := c_orig c in
+  let one (which : string) (dec : option tnode) : verdict :=
+    match dec with
+    | None => SpecFails (which ++ ": decoding failed")
+    | Some d => combine_verdicts
+                  [spec (t_eqb (t_strip0 d) (t_strip0 t))
+                        (which ++ ": below the cap the decoded tree differs from the original (beyond zero-total frames)");
+                   spec (t_exactb d) (which ++ ": decoded totals are not self + children")]
+    end in
+  if t_wfb t && t_exactb t && Nat.ltb (t_size t) (c_cap c) then
+    combine_verdicts [one "dictionary encoding" (c_dec_fresh c);
+                      one "dictionary encoding (dictionary with earlier entries)" (c_dec_pre c);
+                      one "self-contained encoding" (c_dec_nodict c);
+                      spec (c_src_untouched c) "encoding modified the source tree"]
+  else ModelDiffers "big-tree case outside its intended domain (well-formed, exact, below the cap)".
+
+Definition check_case_small (c : case) : verdict :=
   let t := c_orig c in
   let cap := c_cap c in
   (* the property speaks about the trees the system holds: children sorted by name, total >= self + children
@@ -72,6 +123,7 @@ Definition check_case (c : case) : verdict :=
            | None => true
            | Some (bs, r) => opt_eqb (tc_deserialize_nodict bs) r
            end) "model of DeserializeNoDict differs on a malformed stream"] ++
+    flat_map (check_seq t good exact) (c_seq c) ++
     (if good then
        spec_one "dictionary encoding" t cap exact (c_dec_fresh c) ++
        spec_one "dictionary encoding (dictionary with earlier entries)" t cap exact (c_dec_pre c) ++
@@ -79,3 +131,5 @@ Definition check_case (c : case) : verdict :=
        [spec (opt_eqb (c_dec_fresh c) (c_dec_nodict c) && opt_eqb (c_dec_pre c) (c_dec_nodict c))
              "the two encodings do not decode to the same tree"]
      else []))%list.
+
+Definition check_case (c : case) : verdict := if c_big c then check_big c else check_case_small c.
